@@ -67,6 +67,13 @@ def tasks(tier):
             cfg2 = dict(cfg, alphabet=["ok", "x:T", "x:P"], faults=[(site, idx, "KeyError")],
                         attempt_hooks="call")
             out.append({"family": "records-faults", "cfg": cfg2, "entry": e, "bound": 0, "ncalls": 1})
+    # a callback raises on its second invocation, after an attempt of another class was retried
+    for e, site in itertools.product(["Policy.call", "AsyncPolicy.call", "RetryPolicy.call", "Policy.context"],
+                                     ["strategy", "sleeper", "astart", "rclassifier"]):
+        cfg = dict(M=3, alphabet=["x:T", "ok", "x:R", "r:S"], max_unknown=None, attempt_hooks="call",
+                   force_rc=True, faults=[(site, 1 if site != "rclassifier" else 2, "KeyError")],
+                   breaker={"threshold": 3, "window": 8, "recovery": 2, "trip_on": ["T", "U", "P", "R", "S"]})
+        out.append({"family": "records-late-callback-fault", "cfg": cfg, "entry": e, "bound": 0, "ncalls": 1})
     # policy.circuit_breaker is re-assigned (detached / swapped) during the call: the breaker that
     # admitted the call still gets exactly its one record
     for e, thr in itertools.product(WITH_RETRY[:4] + NO_RETRY, [1, 3]):
@@ -119,6 +126,17 @@ def tasks(tier):
                    nest={"site": site, "entry": e, "script": script},
                    breaker={"threshold": 5, "window": 8, "recovery": 2, "trip_on": ["T", "U", "P"]})
         out.append({"family": "records-reentrant", "cfg": cfg, "entry": e, "bound": 1, "ncalls": 1})
+    # the call is the half-open probe and an observability hook lets a cancellation-type
+    # exception escape while the admission is announced: still exactly one record
+    PROBE = {"threshold": 1, "window": 8, "recovery": 2, "trip_on": ["T", "U", "P"],
+             "pre": [("fail", "T"), ("tick", 2)]}
+    for e, site, t in itertools.product(WITH_RETRY + NO_RETRY + ["RetryPolicy.call", "Policy.context"],
+                                        ["metric", "log"],
+                                        ["KeyboardInterrupt", "CancelledError", "SystemExit"]):
+        cfg = dict(M=2 if e not in NO_RETRY else 1, alphabet=["ok", "x:T"], max_unknown=None,
+                   breaker=PROBE, faults=[(site, 0, t)])
+        out.append({"family": "records-admission-hook-fault", "cfg": cfg, "entry": e, "bound": 0,
+                    "ncalls": 1})
     # call sequences sharing one breaker (rejections, probes)
     n = 2 if tier == "quick" else 3
     for e, thr in itertools.product(WITH_RETRY[:4], [1, 2]):
@@ -183,6 +201,19 @@ def _monitor_trace(trace, cfg):
         if idx_rec < idx_op:
             v.append(("c09.record-before-end", f"breaker record {rec[1]} made while the call was "
                                                f"still going on"))
+        if fin.faulted and end[1] == "raise" and rec[1] == "failure" \
+                and isinstance(end[3], str) and end[3].startswith("foreign:"):
+            # call() ended with a callback's own exception (the strategy, the sleeper, a hook, the
+            # result classifier raised): if that ending is recorded as a failure, it is a failure
+            # of the class the classifier gives *that* exception - not of an earlier attempt's
+            flt = [r for r in call.records if r[0] == "fault"]
+            if flt and all(r[1] in ("strategy", "sleeper", "astart", "rclassifier", "handler")
+                           and r[3] in ("KeyError", "RuntimeError", "ValueError") for r in flt):
+                if rec[2] != "U":
+                    v.append(("c09.wrong-record",
+                              f"call() ended by raising {end[2]} (from the {flt[-1][1]} callback) "
+                              f"after {[o.label for o in call.ops]}: breaker got {(rec[1], rec[2])}"
+                              f", the classifier calls that exception UNKNOWN"))
         if fin.nested or fin.faulted or (fin.last is not None and fin.last.kind in ("coe", "genexit")):
             continue
         delivered_ok = (end[1] == "ret") or (end[1] == "outcome" and end[2])
